@@ -65,19 +65,17 @@ func (ex *Exec) havocKey(items []modItem, key string, srt Sort, old Term) {
 		}
 	}
 	if simple {
-		cur := old
 		for _, it := range cov {
 			switch lvl {
 			case 1:
-				cur = Sto(cur, it.ref, ex.vc.Fresh("hv."+key, elemSort(srt)))
+				ex.hStore1(key, srt, it.ref, ex.vc.Fresh("hv."+key, elemSort(srt)))
 			case 2:
 				inner := elemSort(srt)
-				cur = Sto(cur, it.ref, Sto(Sel(cur, it.ref), it.lo, ex.vc.Fresh("hv."+key, elemSort(inner))))
+				ex.hStore2(key, srt, it.ref, it.lo, ex.vc.Fresh("hv."+key, elemSort(inner)))
 			default:
-				cur = ex.vc.Fresh("hv."+key, srt)
+				ex.st.heap[key] = ex.vc.Fresh("hv."+key, srt)
 			}
 		}
-		ex.st.heap[key] = ex.vc.Define("H."+key, cur)
 		return
 	}
 	nv := ex.vc.Fresh("Hc."+key, srt)
@@ -198,6 +196,10 @@ func (ex *Exec) fireAnchors(kind, name string, args []Value, res Value, pos toke
 	ex.fire(false, kind, name, nil, args, res, pos)
 }
 
+func (ex *Exec) fireAnchorsCall(kind, name string, c *ssa.CallCommon, args []Value, res Value, pos token.Pos) {
+	ex.fire(false, kind, name, c, args, res, pos)
+}
+
 func (ex *Exec) fire(before bool, kind, name string, c *ssa.CallCommon, args []Value, res Value, pos token.Pos) {
 	if ex.top == nil || ex.top.contract == nil {
 		return
@@ -211,16 +213,32 @@ func (ex *Exec) fire(before bool, kind, name string, c *ssa.CallCommon, args []V
 		env = env.child()
 		env.fr = ex.fr
 		for i, a := range args {
-			env.vars[fmt.Sprintf("arg%d", i)] = TV{a, nil}
+			var t types.Type
+			if c != nil {
+				off := 0
+				if c.IsInvoke() {
+					off = 0
+				}
+				if i-off >= 0 && i-off < len(c.Args) {
+					t = c.Args[i-off].Type()
+				}
+			}
+			env.vars[fmt.Sprintf("arg%d", i)] = TV{a, t}
 		}
 		if res != nil {
+			rt := func(i int) types.Type {
+				if c != nil && i < c.Signature().Results().Len() {
+					return c.Signature().Results().At(i).Type()
+				}
+				return nil
+			}
 			if tv, ok := res.(TupleV); ok {
 				for i, r := range tv {
-					env.vars[fmt.Sprintf("result%d", i)] = TV{r, nil}
+					env.vars[fmt.Sprintf("result%d", i)] = TV{r, rt(i)}
 				}
 			} else {
-				env.vars["result"] = TV{res, nil}
-				env.vars["result0"] = TV{res, nil}
+				env.vars["result"] = TV{res, rt(0)}
+				env.vars["result0"] = TV{res, rt(0)}
 			}
 		}
 		for ai, a := range at.Actions {
@@ -348,36 +366,40 @@ func (ex *Exec) doAppend(c *ssa.CallCommon, args []Value, pos token.Pos) Value {
 	inplace := ex.vc.Define("inplace", Le(newLen, s.Cap))
 	k := staticInt(t.Len)
 	leaves := leavesOf(et)
-	// --- in-place branch: write t's elements behind s's length in s's backing array
-	// --- fresh branch: new array with s's prefix and t's elements
+	// The new backing array nr is allocated in both cases (in the in-place case it is unreachable
+	// garbage), so its row is stored unconditionally; the in-place writes are conditional element
+	// stores. No array-level ite is needed.
 	nr := ex.newRef()
 	ncap := ex.vc.Fresh("cap", SInt)
 	ex.vc.Assume(ex.st.pc, And(Ge(ncap, newLen), Le(ncap, IStr("4611686018427387904"))), "capacity after growth")
 	for _, l := range leaves {
 		ls := leafSortFix(ex, l)
 		key := elemKey(et, nil) + l.path
-		h := ex.heapGet(key, ArrSort(SInt, ArrSort(SInt, ls)))
+		hs := ArrSort(SInt, ArrSort(SInt, ls))
+		h := ex.heapGet(key, hs)
 		srcArr := Sel(h, t.Ptr)
-		var inpl, fresh Term
+		oldRow := Sel(h, s.Ptr)
 		if k >= 0 && k <= 8 && strSrc.S == "" {
-			a := Sel(h, s.Ptr)
-			for j := 0; j < k; j++ {
-				a = Sto(a, Idx(s.Off, Add(s.Len, I(int64(j)))), Sel(srcArr, Idx(t.Off, I(int64(j)))))
-			}
-			inpl = Sto(h, s.Ptr, a)
 			// fresh array: quantified prefix copy + explicit tail
 			na := ex.vc.Fresh("newarr", ArrSort(SInt, ls))
 			ex.vc.fresh++
 			q := fmt.Sprintf("j!q%d", ex.vc.fresh)
-			ex.vc.Assume(ex.st.pc, Term{fmt.Sprintf("(forall ((%s Int)) (! (=> (and (<= 0 %s) (< %s %s)) (= (select %s (idx 0 %s)) (select (select %s %s) (idx %s %s)))) :pattern ((select %s (idx 0 %s)))))",
-				q, q, q, s.Len.S, na.S, q, h.S, s.Ptr.S, s.Off.S, q, na.S, q), SBool}, "append copies the old elements")
+			ex.vc.Assume(ex.st.pc, Term{fmt.Sprintf("(forall ((%s Int)) (! (=> (and (<= 0 %s) (< %s %s)) (= (select %s (idx 0 %s)) (select %s (idx %s %s)))) :pattern ((select %s (idx 0 %s)))))",
+				q, q, q, s.Len.S, na.S, q, oldRow.S, s.Off.S, q, na.S, q), SBool}, "append copies the old elements")
 			a2 := na
+			var srcVals []Term
 			for j := 0; j < k; j++ {
-				a2 = Sto(a2, Idx(I(0), Add(s.Len, I(int64(j)))), Sel(srcArr, Idx(t.Off, I(int64(j)))))
+				sv := ex.vc.Define("appended", Sel(srcArr, Idx(t.Off, I(int64(j)))))
+				srcVals = append(srcVals, sv)
+				a2 = Sto(a2, Idx(I(0), Add(s.Len, I(int64(j)))), sv)
 			}
-			fresh = Sto(h, nr, a2)
+			ex.hStoreRow(key, hs, nr, a2)
+			for j := 0; j < k; j++ {
+				ix := Idx(s.Off, Add(s.Len, I(int64(j))))
+				cur := ex.heapGet(key, hs)
+				ex.hStore2(key, hs, s.Ptr, ix, Ite(inplace, srcVals[j], Sel(Sel(cur, s.Ptr), ix)))
+			}
 		} else {
-			// symbolic number of appended elements
 			if strSrc.S != "" {
 				ex.vc.DeclareFun("sbyte", []Sort{SStr, SInt}, SInt)
 			}
@@ -387,22 +409,20 @@ func (ex *Exec) doAppend(c *ssa.CallCommon, args []Value, pos token.Pos) Value {
 				}
 				return fmt.Sprintf("(select %s (idx %s %s))", srcArr.S, t.Off.S, j)
 			}
+			na := ex.vc.Fresh("newarr", ArrSort(SInt, ls))
+			ex.vc.fresh++
+			q2 := fmt.Sprintf("j!q%d", ex.vc.fresh)
+			ex.vc.Assume(ex.st.pc, Term{fmt.Sprintf("(forall ((%s Int)) (! (=> (and (<= 0 %s) (< %s %s)) (= (select %s (idx 0 %s)) (ite (< %s %s) (select %s (idx %s %s)) %s))) :pattern ((select %s (idx 0 %s)))))",
+				q2, q2, q2, newLen.S, na.S, q2, q2, s.Len.S, oldRow.S, s.Off.S, q2, srcAt("(- "+q2+" "+s.Len.S+")"), na.S, q2), SBool}, "append into a new array")
 			ia := ex.vc.Fresh("inplarr", ArrSort(SInt, ls))
 			ex.vc.fresh++
 			q := fmt.Sprintf("j!q%d", ex.vc.fresh)
 			base := Add(s.Off, s.Len)
-			ex.vc.Assume(ex.st.pc, Term{fmt.Sprintf("(forall ((%s Int)) (! (= (select %s %s) (ite (and (<= %s %s) (< %s (+ %s %s))) %s (select (select %s %s) %s))) :pattern ((select %s %s))))",
-				q, ia.S, q, base.S, q, q, base.S, t.Len.S, srcAt("(- "+q+" "+base.S+")"), h.S, s.Ptr.S, q, ia.S, q), SBool}, "append in place")
-			inpl = Sto(h, s.Ptr, ia)
-			na := ex.vc.Fresh("newarr", ArrSort(SInt, ls))
-			ex.vc.fresh++
-			q2 := fmt.Sprintf("j!q%d", ex.vc.fresh)
-			ex.vc.Assume(ex.st.pc, Term{fmt.Sprintf("(forall ((%s Int)) (! (=> (and (<= 0 %s) (< %s %s)) (= (select %s %s) (ite (< %s %s) (select (select %s %s) (+ %s %s)) %s))) :pattern ((select %s %s))))",
-				q2, q2, q2, newLen.S, na.S, q2, q2, s.Len.S, h.S, s.Ptr.S, s.Off.S, q2, srcAt("(- "+q2+" "+s.Len.S+")"), na.S, q2), SBool}, "append into a new array")
-			fresh = Sto(h, nr, na)
+			ex.vc.Assume(ex.st.pc, Term{fmt.Sprintf("(forall ((%s Int)) (! (= (select %s %s) (ite (and %s (<= %s %s) (< %s (+ %s %s))) %s (select %s %s))) :pattern ((select %s %s))))",
+				q, ia.S, q, inplace.S, base.S, q, q, base.S, t.Len.S, srcAt("(- "+q+" "+base.S+")"), oldRow.S, q, ia.S, q), SBool}, "append in place")
+			ex.hStoreRow(key, hs, nr, na)
+			ex.hStoreRow(key, hs, s.Ptr, ia)
 		}
-		ex.heapSet(key, Ite(inplace, inpl, fresh))
-		ex.noteHeapWrite(key)
 	}
 	ex.noteAppend(s, inplace, pos)
 	return SliceV{
@@ -452,8 +472,7 @@ func (ex *Exec) doCopy(c *ssa.CallCommon, args []Value, pos token.Pos) Value {
 		}
 		ex.vc.Assume(ex.st.pc, Term{fmt.Sprintf("(forall ((%s Int)) (! (= (select %s %s) (ite (and (<= %s %s) (< %s (+ %s %s))) %s (select (select %s %s) %s))) :pattern ((select %s %s))))",
 			q, na.S, q, d.Off.S, q, q, d.Off.S, n.S, src, h.S, d.Ptr.S, q, na.S, q), SBool}, "copy")
-		ex.heapSet(key, Sto(h, d.Ptr, na))
-		ex.noteHeapWrite(key)
+		ex.hStoreRow(key, ArrSort(SInt, ArrSort(SInt, ls)), d.Ptr, na)
 	}
 	return Sc{n}
 }
